@@ -114,15 +114,17 @@ fn std_hash(s: &ScalarValue) -> u64 {
     h.finish()
 }
 
-/// DETECTION-DEMO switch (reference side only): see the final report.
-const DEMO_BREAK_CANON: bool = false;
+/// DETECTION-DEMO switch (reference side only, off unless `VERIF_DEMO_C12=canon`
+/// is set in the environment): the reference then wrongly claims that the key
+/// values 1 and 100 are equal, so "equal rows hash equally" must be reported.
+fn demo_break_canon() -> bool {
+    static ON: std::sync::OnceLock<bool> = std::sync::OnceLock::new();
+    *ON.get_or_init(|| std::env::var("VERIF_DEMO_C12").map(|v| v == "canon").unwrap_or(false))
+}
 
 fn canon(v: &V) -> V {
-    if DEMO_BREAK_CANON {
-        // planted oracle defect: pretend that 1 and 100 are the same key value
-        if *v == V::Int(100) {
-            return V::Int(1);
-        }
+    if demo_break_canon() && *v == V::Int(100) {
+        return V::Int(1);
     }
     enc::canon(v)
 }
@@ -306,8 +308,8 @@ fn explore(ctx: &Ctx) {
     let exotic = if no_exotic { vec![] } else { enc::exotic_menu() };
     let menu: Vec<T> = base.iter().cloned().chain(exotic.iter().cloned()).collect();
     let rep = enc::representative_menu();
-    let l1 = ctx.pick(3, 4);
-    let l2 = ctx.pick(2, 3);
+    let l1 = ctx.pick(4, 5);
+    let l2 = ctx.pick(3, 4);
     let scalar_len = ctx.pick(2, 3);
     let mut jobs: Vec<Job> = vec![];
     // simplest first: single column, then behind the Int32 prefix column
@@ -368,12 +370,14 @@ fn explore(ctx: &Ctx) {
     ctx.assume("only spec-valid arrays are built (validated constructors; view padding is zero)");
     jobs.par_iter().for_each(|job| {
         let k = job.types.len();
-        let failed = std::cell::Cell::new(false);
         for n in job.min_n..=job.max_n {
             let dims: Vec<usize> = job.domains.iter().flat_map(|d| std::iter::repeat(d.len()).take(n)).collect();
-            let run = |idx: &[usize]| {
-                if failed.get() || ctx.should_stop() {
-                    return;
+            let mut idxs: Vec<Vec<usize>> = vec![];
+            enumerate::product(&dims, |idx| idxs.push(idx.to_vec()));
+            // evaluate one case; Some(violation) if it fails
+            let eval = |idx: &Vec<usize>| -> Option<(String, Value)> {
+                if ctx.should_stop() {
+                    return None;
                 }
                 let cols: Vec<Vec<V>> =
                     (0..k).map(|j| (0..n).map(|r| job.domains[j][idx[j * n + r]].clone()).collect()).collect();
@@ -389,7 +393,7 @@ fn explore(ctx: &Ctx) {
                         ctx.count("scalar_unsupported_types", st.scalar_unsupported);
                         if n >= 1 && st.encodings as usize > k {
                             ctx.nontrivial(&c);
-                            if n >= 2 && k == 2 && st.null_rows > 0 && st.equal_rows > 0 && ctx.want_sample() {
+                            if n >= 2 && k == 2 && st.encodings > 100 && st.null_rows > 0 && st.equal_rows > 0 && ctx.want_sample() {
                                 ctx.sample(json!({
                                     "types": c.types.iter().map(|t| t.name()).collect::<Vec<_>>(),
                                     "columns": c.cols,
@@ -398,19 +402,23 @@ fn explore(ctx: &Ctx) {
                                 }));
                             }
                         }
+                        None
                     }
                     Err(what) => {
                         if what.starts_with("MACHINERY") {
                             ctx.machinery_error(what);
-                            return;
+                            return None;
                         }
-                        failed.set(true);
-                        let cv = serde_json::to_value(&c).unwrap();
-                        ctx.violation(serde_json::to_string(&c).unwrap(), what, cv);
+                        Some((what, serde_json::to_value(&c).unwrap()))
                     }
                 }
             };
-            enumerate::product(&dims, |idx| run(idx));
+            // first (smallest) violation of this tuple of key types, deterministically
+            let first = idxs.par_iter().map(eval).find_first(|r| r.is_some()).flatten();
+            if let Some((what, cv)) = first {
+                ctx.violation(serde_json::to_string(&cv).unwrap(), what, cv);
+                break;
+            }
         }
     });
 }
